@@ -58,6 +58,9 @@ def models():
         dict(tag="hess-entry", obj=("bin", "+", ("un", "exp", ("bin", "*", P1, X)), ("bin", "*", ("bin", "*", P2, X), Y)), sense="max", cons=[], bounds={"x": (-1.0, 1.0), "y": (-1.0, 1.0)}),
         dict(tag="vector-elements", obj=("vsum", ("vexpr", [("bin", "*", P1, sq(("velem", v2, 0))), ("bin", "+", ("velem", v2, 1), P2)])), sense="min",
              cons=[("eq", ("lincomb", [1.0, 2.0], ("vexpr", [("bin", "*", P2, ("velem", v2, 0)), ("velem", v2, 1)])), ("num", 1.0))], bounds={}),
+        dict(tag="unary-of-param", obj=("bin", "+", ("bin", "*", ("un", "exp", ("un", "neg", P1)), sq(X)), ("bin", "*", ("un", "sqrt", P2), Y)), sense="min",
+             cons=[("le", ("bin", "+", X, Y), ("un", "sin", P1))], bounds={}),
+        dict(tag="param-exponent", obj=("bin", "+", ("bin", "**", X, P1), ("bin", "**", ("bin", "*", X, Y), P2)), sense="min", cons=[], bounds={"x": (0.5, 3.0), "y": (0.5, 3.0)}),
         dict(tag="linear-looking", obj=("bin", "+", ("bin", "*", P1, X), ("bin", "*", P2, Y)), sense="min", cons=[("le", ("bin", "+", X, Y), P1), ("ge", X, ("num", 0.0))], bounds={"y": (0.0, 5.0)}),
     ]
 
@@ -82,13 +85,42 @@ def items(tier, seed):
 
 
 def run_history(model, hist, planted=False, deep=False):
-    """executes one history on the real code; returns result records"""
+    """explores the history: the code's own tests on parameter VALUES (p == 0, p == 1 in the simplifiers, if any)
+    become branches, so a history is also run with the parameters initially equal to 0 and to 1; every
+    obligation is discharged under the path's final condition"""
+    out = []
+
+    def path():
+        K.DEFER = []
+        try:
+            res = _history_once(model, hist, planted, deep)
+            return res, K.DEFER
+        finally:
+            K.DEFER = None
+
+    from vf.engine.sym import ExplorationBudget
+    try:
+        for dec, labels, pc, (res, deferred) in K.explore(path, max_paths=300, clear_caches=False):
+            out += [r for r in res if r.get("status") != "deferred"]
+            rr = K.discharge_deferred(deferred, pc)
+            if deep:
+                for r in rr:
+                    r["what"] = "[iterative builders] " + r["what"]
+                    if r.get("sig"):
+                        r["sig"] += "|deep"
+            out += rr
+    except ExplorationBudget as e:
+        out.append(inconclusive(f"path budget for history {model['tag']}:{'>'.join(hist)}: {e}"))
+    return out
+
+
+def _history_once(model, hist, planted=False, deep=False):
+    """executes one history on the real code; returns result records (obligations deferred to the path's end)"""
     if deep:
         from vf.props import c15
         old = c15.set_thresholds(0)
         try:
-            return [dict(r, what="[iterative builders] " + r["what"], sig=(r["sig"] + "|deep") if "sig" in r else None) if r.get("sig") else dict(r, what="[iterative builders] " + r["what"])
-                    for r in run_history(model, hist, planted, False)]
+            return _history_once(model, hist, planted, False)
         finally:
             c15.restore_thresholds(old)
     from optyx.core import autodiff as A
@@ -256,9 +288,15 @@ def replay(payload):
             c15.restore_thresholds(old)
     rng = random.Random(12)
     names = LM.model_names(model)
-    for attempt in range(5):
-        val = {n: rng.uniform(0.3, 1.2) for n in names["vars"] + names["syms"]}
-        cur = {"p1": rng.uniform(0.5, 1.5), "p2": rng.uniform(0.5, 1.5)}
+    from fractions import Fraction
+    mv = {k: float(Fraction(v)) for k, v in payload.get("values", {}).items()}
+    nset = {"p1": 0, "p2": 0}
+    for attempt in range(6):
+        nset = {"p1": 0, "p2": 0}
+        use_model = attempt == 0 and bool(mv)
+        val = {n: (mv.get(n, 0.7) if use_model else rng.uniform(0.3, 1.2)) for n in names["vars"] + names["syms"]}
+        cur = {"p1": mv.get("p1_0", 1.0) if use_model else rng.choice([0.0, 1.0, rng.uniform(0.5, 1.5)]),
+               "p2": mv.get("p2_0", 1.0) if use_model else rng.choice([0.0, 1.0, rng.uniform(0.5, 1.5)])}
         val.update(cur)
         p, b = LM.build_model(model, val)
         cols = [v.name for v in p.variables]
@@ -288,7 +326,8 @@ def replay(payload):
         for op in hist:
             if op in ("set1", "set2"):
                 k = "p1" if op == "set1" else "p2"
-                cur[k] = rng.uniform(2.0, 3.0)
+                nset[k] += 1
+                cur[k] = mv.get(f"{k}_{nset[k]}", 2.5) if use_model else rng.uniform(2.0, 3.0)
                 b.params[k].set(cur[k])
                 continue
             with np.errstate(all="ignore"):
